@@ -64,16 +64,10 @@ def r2(ctx):
     from .c01 import headers_table
     repo = ctx.repo
     headers_table(ctx, "C08.R2", "switches")
-    # environ key map
-    fc = ctx.fn(repo.func(WSGI + ".create"))
-    keys = [s for s in fc.cfg.stmts(ast.Assign) if isinstance(s.ast.value, ast.BinOp) and isinstance(s.ast.value.op, ast.Add) and const(s.ast.value.left, NO) == "HTTP_"]
-    keys += [s for s in fc.cfg.stmts(ast.Assign) if isinstance(s.ast.value, ast.JoinedStr) and s.ast.value.values and const(s.ast.value.values[0], NO) == "HTTP_"]
-    ctx.need(keys, "C08.R2: 'HTTP_' + name key construction not found in wsgi.create")
-    for s in keys:
-        v = s.ast.value
-        r = v.right if isinstance(v, ast.BinOp) else (v.values[1].value if len(v.values) == 2 and isinstance(v.values[1], ast.FormattedValue) else None)
-        okk = isinstance(r, ast.Call) and isinstance(r.func, ast.Attribute) and r.func.attr == "replace" and [const(a, NO) for a in r.args] == ["-", "_"] and isinstance(r.func.value, ast.Name)
-        ctx.check("C08.R2", okk, key(fc, "key-map"), site(fc, s), "the environ key is not 'HTTP_' + name.replace('-', '_') (the only non-injective step the underscore policy accounts for)", "HTTP_ + replace('-', '_')")
+    # environ key map: evaluated (the table of C15.R1 on the names the underscore policy is about)
+    from .c15 import header_mapping
+    header_mapping(ctx, "C08.R2", ("X-FOO", "X_FOO", "CONTENT_TYPE", "CONTENT_LENGTH", "CONTENT-TYPE", "SCRIPT-NAME", "SCRIPT_NAME", "X-SCRIPT-NAME", "HOST", "X_HOST",
+                                      "X.FOO", "X-!#$%&'*+.^`|~-Y", "X-0-9"))     # (every tchar: '-' -> '_' is the ONLY character the key map changes)
     # default of header_map is a safe mode
     from .common import setting_default
     d = setting_default(repo, "header_map")
@@ -136,7 +130,8 @@ def r3(ctx):
     ctx.table("C08.R3 PROXY access", rows)
     # writers of proxy_protocol_info
     allowed = {MSG + ".Request.parse_proxy_protocol", MSG + ".Request.__init__", "gunicorn.workers.base_async.AsyncWorker.handle", "gunicorn.workers.gthread.ThreadWorker.handle",
-               "gunicorn.workers.gthread.TConn.__init__", "gunicorn.http.parser.Parser.__next__", "gunicorn.http.parser.Parser.__init__"}
+               "gunicorn.workers.gthread.TConn.__init__", "gunicorn.workers.gthread.TConn.init", "gunicorn.http.parser.Parser.__next__", "gunicorn.http.parser.Parser.__init__"}
+    # (TConn.init runs before every hand-over: what it does to the remembered info is part of the evaluated history of C08.R5)
     n = 0
     for ff in repo.funcs():
         for x in walk_own(ff.node):
@@ -278,6 +273,25 @@ def ppi_table(ctx, f, nreq):
         return None
     reqs = [Ref("request-%d" % (i + 1)) for i in range(nreq)]
     heap = {("parser", "queue"): tuple(reqs), ("conn", "parser"): Ref("parser"), ("conn", "proxy_protocol_info"): {}, ("conn", "initialized"): True}
+    per_call = "conn" in f.params
+    f_init = repo.func("gunicorn.workers.gthread.TConn.init") if per_call and repo.has_func("gunicorn.workers.gthread.TConn.init") else None
+    if f_init is not None:
+        # the connection object is new before the first request: TConn.__init__'s state, then init() before *every* hand-over
+        ctx.fn(f_init)
+        heap[("conn", "parser")] = None
+        heap[("conn", "initialized")] = False
+
+    def run_init(h):
+        """heaps after conn.init() (what enqueue_req runs before every hand-over to a pool thread)"""
+        if f_init is None:
+            return [h]
+        exi = Explorer(f_init, atom_of=lambda e: "PARSER" if (isinstance(e, ast.Call) and "Parser" in (repo.call_target(f_init.module, f_init, e) or "")) else None)
+        outs_i = exi.run(f_init.cfg.entry, {HEAP: h, "self": Ref("conn"), "PARSER": Ref("parser")})
+        res = []
+        for o in outs_i:
+            if o.kind == "return" and o.env.get(HEAP) is not None and o.env.get(HEAP) not in res:
+                res.append(o.env.get(HEAP))
+        return res or [h]
     for i, r in enumerate(reqs):
         heap[(r.name, "proxy_protocol_info")] = INFO if i == 0 else None
 
@@ -293,9 +307,9 @@ def ppi_table(ctx, f, nreq):
     probes = {nn.id: ("dispatch", make_probe(c)) for c in hreq for nn in nodes_with(f, c)}
     seen = {}
     heaps = [heap]
-    per_call = "conn" in f.params
     for rnd in range(nreq if per_call else 1):
         nxt = []
+        heaps = [h2 for h in heaps for h2 in run_init(h)][:8]
         for h in heaps:
             ex = Explorer(f, atom_of=atom_of, max_states=100000)
             env = {HEAP: h, "PARSER": Ref("parser"), "self.cfg.keepalive": 2, "self.alive": True}
